@@ -1060,9 +1060,31 @@ def rule_rowindex(ctx):
             continue
         c = fn["crate"]
         key = fn_key(fn)
+        # containers of the input: the parameters (self included) and what is bound from them - not what the function creates
+        # itself (an output that is filled by position among the kept rows is indexed rightly with that position)
+        rooted = set(b["local"] for p_ in fn["params"] for b in pat_bindings(p_))
+        grew = True
+        while grew:
+            grew = False
+            for y in walk(fn["body"]):
+                if y.get("k") in ("LetStmt", "Let") and y.get("init") is not None:
+                    i0 = peel_refs(y["init"])
+                    created = i0.get("k") == "Call" and (c.dfn(strip(i0["f"]).get("def")) or {}).get("name") in ("zeros", "ones", "new", "with_capacity", "from_elem", "default", "uninit")
+                    if not created and any(z.get("k") == "Path" and z.get("local") in rooted for z in walk(y["init"])) and not any(z.get("k") == "MethodCall" and z["name"] in ("collect", "to_vec", "to_owned", "clone", "map") for z in walk(y["init"])):
+                        for b in pat_bindings(y["pat"]):
+                            if b["local"] not in rooted:
+                                rooted.add(b["local"])
+                                grew = True
+        assigned_targets = set(id(peel_refs(y["l"])) for y in walk(fn["body"]) if y.get("k") in ("Assign", "AssignOp"))
+
+        def root_local(e):
+            e = peel_refs(e)
+            while e.get("k") in ("Field", "Index", "MethodCall"):
+                e = peel_refs(e.get("e") or e.get("recv"))
+            return e.get("local") if e.get("k") == "Path" else None
         for loc, adaptors in sorted(srcs.items()):
             bad = [a for a in adaptors if a in rowindex.REINDEXING]
-            uses = [y for y in walk(fn["body"]) if y.get("k") == "Index" and peel_refs(y["i"]).get("k") == "Path" and peel_refs(y["i"]).get("local") == loc]
+            uses = [y for y in walk(fn["body"]) if y.get("k") == "Index" and peel_refs(y["i"]).get("k") == "Path" and peel_refs(y["i"]).get("local") == loc and id(y) not in assigned_targets and root_local(y["e"]) in rooted]
             if not uses:
                 continue
             n += 1
